@@ -39,7 +39,7 @@ var (
 	// vfC03MappedEntries are list entries spelled as IPv4-mapped IPv6 addresses
 	// (what a dual-stack reverse proxy reports): the same client as the IPv4 form.
 	vfC03MappedEntries = []string{"::ffff:192.0.2.10", "::ffff:10.1.2.3"}
-	vfC03Nets = []string{
+	vfC03Nets          = []string{
 		"192.0.2.0/24", "192.0.2.8/29", "192.0.2.10/32", "192.0.2.10/31", "0.0.0.0/0", "10.0.0.0/8", "198.51.100.0/30",
 		"2001:db8::/32", "2001:db8::/127", "2001:db8::1/128", "::/0", "fe80::/10", "128.0.0.0/1", "0.0.0.0/1",
 	}
